@@ -498,6 +498,151 @@ def r02i(rep, F):
     rep.require_count('R02i', 'propagator calls in control::SpaceInformation', n, 8)
 
 
+def r02j(rep, F):
+    rep.rule('R02j', 'control PDST keeps its motions replayable when it splits them across cells and when it recomputes durations: '
+                     'PDST::addMotion is interpreted over an abstract trajectory (states are step indices 0..D of one control, D = 1..5; '
+                     'the cell of every state comes from every script over two cells) and afterwards the pieces linked through parent_ '
+                     'form one contiguous chain from step 0 to step D whose stored durations equal end - start step, sum to D, and every '
+                     'piece was added to exactly one cell; PDST::findDurationAndAncestor, interpreted on every such chain, returns for '
+                     'every step k of the chain the number of steps from the start of the (merged, same-control) ancestor it reports')
+    from engine import obj
+    import itertools
+    PD_ = C + 'PDST::'
+    am = [g for g in F.by_name.get(PD_ + 'addMotion', []) if g.body]
+    fda = [g for g in F.by_name.get(PD_ + 'findDurationAndAncestor', []) if g.body]
+    if not am or not fda:
+        raise AnalysisBroken('R02j: control PDST::addMotion / findDurationAndAncestor vanished')
+    am, fda = am[0], fda[0]
+
+    def mk_hooks(script, cells, log):
+        def default(_):
+            return None
+
+        def call(it, n, env):
+            c = n.get('callee') or ''
+            short = c.split('::')[-1]
+            a = args(it.fn, n) if n['k'] == 'CXXMemberCallExpr' else n['ch']
+            if short == 'project' and len(a) == 2:
+                st_, pj = it.ev(a[0], env), it.ev(a[1], env)
+                pj['of'] = st_
+                return None
+            if short == 'stab':
+                pj = it.ev(a[0], env)
+                if not isinstance(pj.get('of'), int) or not (0 <= pj['of'] < len(script)):
+                    raise AnalysisBroken('R02j: projection of a state outside the trajectory (%r)' % (pj.get('of'),))
+                return cells[script[pj['of']]]
+            if c.endswith('Cell::addMotion'):
+                cell = it.ev(n['ch'][0], env)
+                mo = it.ev(a[0], env)
+                cell['motions'].append(mo)
+                log.append(mo)
+                mo['cell_'] = cell
+                return None
+            if short == 'updateHeapElement':
+                return None
+            if short == 'copyState' and len(a) == 2:
+                dst = it.fn.strip(a[0])
+                k_ = it.lkey(dst)
+                if k_ is None:
+                    raise AnalysisBroken('R02j: copyState into a non-local')
+                env[k_] = it.ev(a[1], env)
+                return None
+            if short == 'cloneState':
+                return it.ev(a[0], env)
+            if short == 'propagate' and len(a) == 4:
+                frm, ctl, steps = it.ev(a[0], env), it.ev(a[1], env), it.ev(a[2], env)
+                out = it.fn.strip(a[3])
+                k_ = it.lkey(out)
+                if k_ is None or not isinstance(frm, int):
+                    raise AnalysisBroken('R02j: propagate from / into an unrecognised state')
+                env[k_] = frm + steps
+                log.append(('prop', ctl))
+                return None
+            if short == 'distance' and len(a) == 2:
+                x, y = it.ev(a[0], env), it.ev(a[1], env)
+                if isinstance(x, int) and isinstance(y, int):
+                    return abs(x - y)
+                raise AnalysisBroken('R02j: distance between unrecognised states')
+            if c.endswith('DenseBase::swap') or short == 'swap' and 'Eigen' in c:
+                p0, p1 = it.ev(n['ch'][0], env), it.ev(a[0], env)
+                p0['of'], p1['of'] = p1.get('of'), p0.get('of')
+                return None
+            if c.endswith('numeric_limits::epsilon'):
+                from fractions import Fraction
+                return Fraction(1, 1000)
+            return NotImplemented
+        return {'default': default, 'call': call}
+
+    def chain_of(mo, root):
+        out = []
+        cur = mo
+        guard = 0
+        while cur is not None and cur is not root and guard < 20:
+            out.append(cur)
+            cur = cur.get('parent_')
+            guard += 1
+        return list(reversed(out)), cur
+
+    bad = None
+    bad2 = None
+    runs = runs2 = 0
+    for D in range(1, 6):
+        for script in itertools.product((0, 1), repeat=D + 1):
+            cells = {0: obj.Ref(motions=[], id=0), 1: obj.Ref(motions=[], id=1)}
+            log = []
+            hooks = mk_hooks(script, cells, log)
+            root = obj.Ref(startState_=-1, endState_=0, control_=('u', 0), controlDuration_=1, priority_=1, parent_=None, cell_=None, heapElement_=None, isSplit_=False)
+            mo = obj.Ref(startState_=0, endState_=D, control_=('u', 1), controlDuration_=D, priority_=2, parent_=root, cell_=None, heapElement_=None, isSplit_=False)
+            it = obj.ObjInterp(F, am, this=obj.Ref(projectionEvaluator_=('pe',), si_=('si',), siC_=('siC',), priorityQueue_=('pq',)), hooks=hooks)
+            names = ['%s#%d' % (p_['name'], p_['did']) for p_ in am.params]
+            env = dict(zip(names, [mo, obj.Ref(name='bsp'), ('scratch', 1), ('scratch', 2), obj.Ref(of=None), obj.Ref(of=None)]))
+            it.run(env)
+            runs += 1
+            pieces, end = chain_of(mo, root)
+            msg = None
+            if end is not root:
+                msg = 'the pieces no longer chain back to the motion\'s original parent'
+            elif pieces[0]['startState_'] != 0 or pieces[-1]['endState_'] != D or pieces[-1] is not mo:
+                msg = 'the chain runs from step %s to step %s, not from 0 to %d' % (pieces[0]['startState_'], pieces[-1]['endState_'], D)
+            else:
+                for a_, b_ in zip(pieces, pieces[1:]):
+                    if a_['endState_'] != b_['startState_']:
+                        msg = 'piece ending at step %s is followed by a piece starting at step %s' % (a_['endState_'], b_['startState_'])
+                for pc in pieces:
+                    if pc['endState_'] - pc['startState_'] != pc['controlDuration_']:
+                        msg = msg or 'a piece from step %s to step %s stores a duration of %s steps' % (pc['startState_'], pc['endState_'], pc['controlDuration_'])
+                    if len([1 for x in log if x is pc]) != 1:
+                        msg = msg or 'a piece is added to %d cells' % len([1 for x in log if x is pc])
+                    if pc['control_'] != ('u', 1):
+                        msg = msg or 'a piece carries another control than the motion it was split from'
+            if msg and bad is None:
+                bad = 'D = %d, cells of the states %s: %s' % (D, list(script), msg)
+            if msg:
+                continue
+            # durations recomputed from the chain
+            for k in range(0, D + 1):
+                for start_piece in pieces:
+                    if not (start_piece['startState_'] <= k <= start_piece['endState_']):
+                        continue
+                    # the planner asks a motion that has been split since: start the search at the last piece (the original object)
+                    it2 = obj.ObjInterp(F, fda, this=obj.Ref(si_=('si',), siC_=('siC',)), hooks=mk_hooks(script, cells, []))
+                    n2 = ['%s#%d' % (p_['name'], p_['did']) for p_ in fda.params]
+                    holder = {}
+                    env2 = dict(zip(n2, [mo, k, ('scratch', 3), None]))
+                    r, e_out = it2.run(env2)
+                    runs2 += 1
+                    anc = e_out.get(n2[3])
+                    if not isinstance(anc, dict):
+                        bad2 = bad2 or 'D = %d, cells %s, step %d: no ancestor is reported' % (D, list(script), k)
+                    elif anc['startState_'] + r != k and not (k == 0 and r == 0):
+                        bad2 = bad2 or 'D = %d, cells %s: for the state at step %d the reported ancestor starts at step %s and the duration is %s' % (
+                            D, list(script), k, anc['startState_'], r)
+                    break
+    rep.add('R02j', am.name, 'split-conserves-trajectory', bad is None, am.loc, bad or 'contiguous chain with exact durations on %d abstract runs' % runs)
+    rep.add('R02j', fda.name, 'duration-from-ancestor-start', bad2 is None, fda.loc, bad2 or 'duration = steps from the reported ancestor\'s start on %d abstract queries' % runs2)
+    rep.require_count('R02j', 'abstract PDST runs', runs, 100)
+
+
 def run(rep):
     units = P.control_units() + [src('control', 'src', 'SpaceInformation.cpp'), src('control', 'src', 'SimpleDirectedControlSampler.cpp'),
                                  src('control', 'src', 'PathControl.cpp'),
@@ -513,6 +658,7 @@ def run(rep):
     r02g(rep, F)
     r02h(rep, F)
     r02i(rep, F)
+    r02j(rep, F)
     solves = [f for f in P.solve_functions(F) if f.name.startswith(C)]
     must, may = c03.add_summaries(F)
     c03.r03a(rep, F, solves, must, may, rule='R02s', frozen=6)
